@@ -80,9 +80,17 @@ class CHECK(Check):
         if self.fam2 is None:
             ex2 = m.explore(2)
             self.k2_states = len(ex2['states'])
+            by_top = {}
             for a, (pre, stk) in ex2['states'].items():
                 if pre and all(x in m.lexeme for x in pre) and not m.simulate(pre)[0]:
                     out.append(('seq', pre, 'none', ()))
+                    by_top.setdefault(stk[-1], []).append(pre)
+            # the same truncations, each judged after another truncation that stops in the same parser state (reached through a
+            # different left context) was rejected earlier in the process: a message may depend on the text at hand only
+            for top, pres in by_top.items():
+                if len(pres) > 1:
+                    for i, pre in enumerate(pres):
+                        out.append(('seq@after', pre, 'none', (), pres[i - 1]))
         # lexeme-rewritten tokens as the offending / preceding token
         for a, (pre, stk) in self.fam.ex['states'].items():
             for alt in ("'it''s'", '"a\\"b"', '@v', "@'a b'", '@@sv', "''"):
@@ -145,7 +153,7 @@ class CHECK(Check):
         return out
 
     def build(self, case):
-        kind, seq, lead, devs = case
+        kind, seq, lead, devs = case[:4]
         m = self.m
         if kind in ('text', 'illegal_text'):
             return seq
@@ -168,6 +176,9 @@ class CHECK(Check):
         m = self.m
         text = self.build(case)
         kind = case[0]
+        if kind == 'seq@after':
+            parsing.outcome(m.text_of(case[4]), 'mindsdb')      # the earlier, rejected statement of the same process
+            kind = 'seq'
         layout = 'default' if kind == 'text' or (case[2] == 'none' and not case[3]) else 'layout'
         out = parsing.outcome(text, 'mindsdb')
         if kind in ('illegal', 'illegal_text'):
@@ -321,4 +332,7 @@ class CHECK(Check):
                         'at every position of 200 representatives and after every token that can span a line break; errors at the end of pumped lists (3, 40, 2500 elements); distinct_nontrivial = distinct (header, caret line, suggestions)'}
 
     def describe_case(self, case):
-        return {'kind': case[0], 'text': self.build(case)}
+        d = {'kind': case[0], 'text': self.build(case)}
+        if case[0] == 'seq@after':
+            d['statement_rejected_before_in_the_same_process'] = self.m.text_of(case[4])
+        return d
